@@ -59,3 +59,47 @@ Theorem C09_translated_uniquifier_is_model : forall (f : nat -> obj),
       Z.of_nat (length ui), Z.eqb (Z.of_nat (length ids)) (Z.of_nat (length ui))).
 Proof. exact uniquifier_init_refines. Qed.
 Print Assumptions C09_translated_uniquifier_is_model.
+
+(* ---- PureFunction.set_objparams / restore_objparams / _check_identical_objs of xitorch/_core/pure_function.py as translated
+   from /repo on this run (Gen/PyPureFn.v): they ARE the transitions set_obj / restore_obj of the model the theorems above are
+   about, and - directly on the translated code - a substitution followed by its restoration gives back the object store, the
+   current parameters and the restore stack ---- *)
+From Coq Require String.
+Import String.StringSyntax.
+From XV Require Import Gen.PyPureFn Proofs.PyPureFnProofs.
+
+Theorem C09_translated_check_identical_is_model : forall (f : nat -> obj),
+  (forall i j, obj_id (f i) = obj_id (f j) -> i = j) -> forall a b,
+  check_identical_objs (map f a) (map f b) = Ok (prefix_identical a b).
+Proof. exact check_identical_objs_refines. Qed.
+Print Assumptions C09_translated_check_identical_is_model.
+
+Theorem C09_translated_set_objparams_is_model : forall (f : nat -> obj),
+  (forall i j, obj_id (f i) = obj_id (f j) -> i = j) -> forall s n uo ui au new,
+  uniq_wf s au ->
+  purefn_set_objparams (allowed s) (map f (store s)) (uniq_of s n uo ui au) (map f (cur s)) (stack_of f (stack s)) (map f new) =
+  (if snd (set_obj s new) then Raise "RuntimeError" else Ok (fields_out f (fst (set_obj s new)))).
+Proof. exact set_objparams_refines. Qed.
+Print Assumptions C09_translated_set_objparams_is_model.
+
+Theorem C09_translated_restore_objparams_is_model : forall (f : nat -> obj) s n uo ui au old ident r,
+  uniq_wf s au -> stack s = (old, ident) :: r -> (ident = false -> length old = nuniq s) ->
+  purefn_restore_objparams (allowed s) (map f (store s)) (uniq_of s n uo ui au) (map f (cur s)) (stack_of f (stack s)) =
+  Ok (fields_out f (restore_obj s)).
+Proof. exact restore_objparams_refines. Qed.
+Print Assumptions C09_translated_restore_objparams_is_model.
+
+Theorem C09_translated_set_then_restore_is_identity : forall (f : nat -> obj),
+  (forall i j, obj_id (f i) = obj_id (f j) -> i = j) -> forall s n uo ui au new F1,
+  wf s -> uniq_wf s au ->
+  purefn_set_objparams (allowed s) (map f (store s)) (uniq_of s n uo ui au) (map f (cur s)) (stack_of f (stack s)) (map f new) = Ok F1 ->
+  let '(st1, cur1, stk1) := F1 in
+  purefn_restore_objparams (allowed s) st1 (uniq_of s n uo ui au) cur1 stk1 = Ok (fields_out f s).
+Proof. exact code_set_then_restore. Qed.
+Print Assumptions C09_translated_set_then_restore_is_identity.
+
+(* the wrapper state of the model for any parameter list, with the constructor's all_unique flag, meets the side condition *)
+Theorem C09_translated_uniquifier_flags_consistent : forall all d,
+  uniq_wf (wrap all d) (Z.eqb (Z.of_nat (length all)) (Z.of_nat (length (fst (uniq_ids all))))).
+Proof. exact wf_of_init. Qed.
+Print Assumptions C09_translated_uniquifier_flags_consistent.
